@@ -134,6 +134,13 @@ func propC14(c *Ctx, r *Report) {
 		return v.Func.Obj != nil && reach[v.Func.Obj]
 	}, true, false, nil)
 	c.runRebuild(r, "rebuild.complete", "overrides.rebuilds", inPkgs("ir", "msl/internal/codegen"), nil)
+	c.runEvaluators(r, "eval.default", "overrides.evaluators", inPkgs("ir", "msl/internal/codegen", "glsl/internal/codegen"), nil)
+	r.floor("overrides.evaluators", 2)
+	for _, sp := range cloneSpecs[:2] {
+		c.runClone(r, "clone.fresh", sp)
+		r.floor("clone."+sp.Name, 3)
+	}
+	r.Clauses = append(r.Clauses, "clone freshness (E4): override resolution never writes through memory shared with the caller's module", "evaluator default discipline for the override-initialiser evaluators")
 	r.floor("overrides.ExpressionHandle.remappers", 8)
 	r.floor("overrides.rebuilds", 20)
 }
